@@ -90,6 +90,28 @@ def r18_1(ctx, m):
         e = r.value.elts[pos]
         ok = not (isinstance(e, ast.Constant) and e.value is None)
         ctx.check(ok, "R18.1", dec.where(r), "success return carries a counter value", key_of(dec, f"ok-return[{pos}]={norm(e)}"))
+    # values a failure return reports as None are used by the caller only where the component was ordered
+    loop_body = None
+    for l_ in walk_own(run.node):
+        if isinstance(l_, ast.For) and any(x is m.call_stmt for x in ast.walk(l_)):
+            loop_body = l_
+    if loop_body is not None:
+        none_pos = {i for r in m.fail_returns for i, e in enumerate(r.value.elts) if isinstance(e, ast.Constant) and e.value is None}
+        in_success = {id(x) for st in m.success_body for x in ast.walk(st)}
+        in_test = {id(x) for x in ast.walk(m.success_if.test)}
+        for i in sorted(none_pos):
+            t = m.targets[i] if i < len(m.targets) else None
+            if t is None or not t.isidentifier():
+                continue
+            for st in walk_stmts(loop_body.body):
+                if st is m.success_if or isinstance(st, (ast.If, ast.For, ast.While, ast.With, ast.Try)):
+                    continue
+                for x in ast.walk(st):
+                    if isinstance(x, ast.Name) and x.id == t and isinstance(x.ctx, ast.Load) and id(x) not in in_success and id(x) not in in_test:
+                        arith = isinstance(st, ast.AugAssign) or any(isinstance(b, (ast.BinOp, ast.Compare)) and any(y is x for y in ast.walk(b)) for b in ast.walk(st)) or any(isinstance(c_, ast.Call) and norm(c_.func).split(".")[-1] in ("info", "debug", "warning", "len", "range", "int", "sum") and any(y is x for y in ast.walk(c_)) for c_ in ast.walk(st))
+                        if arith:
+                            ctx.violated("R18.1", run.where(st), f"`{norm(st)[:70]}` uses `{t}` outside the branch that tests whether the component was ordered: for a skipped component the ordering function reports None there, so the statement raises TypeError and the command aborts instead of going on with the remaining chromosomes", key_of(run, f"none-used-outside-success:{t}:{norm(st)[:40]}"))
+                            break
     # the counter is not touched in the skip branch of the caller
     touched = [st for st in walk_stmts(m.skip_body) if isinstance(st, (ast.Assign, ast.AugAssign)) and counter in {norm(t) for t in (st.targets if isinstance(st, ast.Assign) else [st.target])}]
     ctx.check(not touched, "R18.1", run.where(m.success_if), "the skip branch of the chromosome loop does not modify the running counter", key_of(run, "skip-branch-touches-counter"))
